@@ -34,12 +34,12 @@ func (c gcfg) sides() []string {
 const (
 	memMin, memMax = 1, 3
 	tabMin, tabMax = 2, 4
-	addrLo         = 16        // in page 0
-	addrLo2        = 17        // in page 0
+	addrLo         = 16         // in page 0
+	addrLo2        = 17         // in page 0
 	addrHi         = 65536 + 16 // in page 1: out of bounds until the memory has grown
-	cVal           = 16        // value of immutable global c  (data offsets)
-	c2Val          = 1         // value of immutable global c2 (element offsets)
-	kID            = 400       // result of K.kid
+	cVal           = 16         // value of immutable global c  (data offsets)
+	c2Val          = 1          // value of immutable global c2 (element offsets)
+	kID            = 400        // result of K.kid
 )
 
 var sideID = map[string]int32{"E": 100, "I": 200, "J": 300}
